@@ -1,3 +1,4 @@
 PROP_MODULES = {
     "C01": ["contracts.c01_ring"],
+    "C02": ["contracts.c02_select"],
 }
